@@ -1183,6 +1183,8 @@ async fn output(
                     } else if let Some(o) = output_wires.get(out.0 as usize).copied().flatten() {
                         output_wires[out] = Some(o ^ r);
                     };
+                } else {
+                    return Err(MpcError::MissingOutputShareForOutReg(out).into());
                 }
             }
         }
